@@ -47,6 +47,12 @@ CHECKS = {
  "C11": (MC, "explicit-state BFS with state matching over host-stimulus histories on a closed system of real switches, real controller connections and the real l2_learning component talking real OpenFlow bytes (netsim)",
          "All sequences of <=5 (quick) / <=7 (thorough) stimuli {frames between 3 hosts + a hub-segment host, unknown unicast, broadcast, multicast, STP and LLDP destinations, host move, idle/hard timeout gaps with sweep} on 1-switch and 2-switch (thorough: 3-switch) topologies with buffering on and off; every frame arrival at every switch is judged against an ideal learning bridge (flood set, known-destination port, most-recent port when the controller handled the frame, no ingress echo, no duplicates, filtered frames dropped, no buffer left occupied).",
          "Synchronous controller (single-threaded FIFO pump); arrivals absorbed by a still-installed flow do not count as 'most recently seen' (the property's escape clause).", "DESIGN.md 4 C11"),
+ "C03": (MC, "exhaustive enumeration of wildcard-bit combinations x prefix lengths x equal/differing field values x a frame corpus, and of all small flow tables x insertion orders x frames, through the real switch over the wire, against an independent field extractor and match relation",
+         "Matches travel as flow-mod bytes (including raw matches whose wildcarded fields carry garbage) into a real SoftwareSwitch; all 2^10 wildcard-bit combinations x nw prefix lengths x <=1 (quick) / <=2 differing fields x 19 frames (VLAN, ARP, ICMP, fragments, options, LLC/SNAP, IPv6, other); lookup: all tables of <=3 (quick) / <=4 entries from an alphabet of overlapping matches incl. wire-exact non-TCP ones x priorities x insertion orders x frames. The observable is the output port / packet-in.",
+         "Trusts mc/refs/refmatch.py (field extraction per OpenFlow 1.0 Table 3, prerequisite rule, prefix compare); among equal-priority matching entries either may win.", "DESIGN.md 4 C03"),
+ "C02": (MC, "exhaustive enumeration of message streams x segmentations (every 1-cut, every 2-cut over header/boundary positions, fixed read sizes incl. 1-byte dribble and the 2048-byte boundary) through the real controller and switch receive paths",
+         "Streams of <=2 (quick) / <=3 (thorough) messages from 8 (controller side) / 7 (switch side) well-formed messages of 8 to 2500 bytes, each stream fed through Connection.read() (real recv(2048) splitting) and through the switch's IOWorker._do_recv -> OFConnection.read in every listed segmentation; after every read the delivered messages must be exactly those completely contained in the bytes fed so far, in order, once, each re-packing to its slice; residual buffer empty at the end.",
+         "Stream encoders mc/refs/ofwire.py, ofwire_s2c.py (spec transcriptions); receivers are reused only when verifiably back in their initial state.", "DESIGN.md 4 C02"),
 }
 
 PENDING_REASON = "check under construction in this round (design in DESIGN.md section 4); not claimed until its harness is committed and silent on the unchanged tree"
